@@ -71,14 +71,13 @@ Theorem exact_when_canonical_legacy_refuted :
     fl_swallow fl = true /\
     In v (map fst history) /\
     registry_universe_ok fl (map fst history) /\
-    (forall u, In u (map fst history) -> quiet_before registry_admissible u (fl_first_start fl)) /\
     registry_heads_ok fl ginit history /\
     exists k h b, st_status (g_st (registry_grun fl history)) = Some (k, h) /\
                   block_at v k = Some b /\ bk_hash b = h /\
                   st_rows (g_st (registry_grun fl history)) <> rows_of registry_admissible v (fl_first_start fl) k.
 Proof.
   exists d8_history, d8_view. simpl. split; [reflexivity|]. split; [left; reflexivity|].
-  split; [exact (d8_universe true)|]. split; [intros u [<-|[]]; vm_compute; reflexivity|].
+  split; [exact (d8_universe true)|].
   split; [split; exact I|].
   exists 5, (hx "05"), (mkblk (hx "05") []). split; [vm_compute; reflexivity|].
   split; [reflexivity|]. split; [reflexivity|]. vm_compute. discriminate.
@@ -91,15 +90,17 @@ Example d8_history_repaired :
 Proof. vm_compute. reflexivity. Qed.
 
 (* --------------------------------------------------------------------------------------- *)
-(* D9: a reorganisation detected fewer than the assumed depth past the sync start rolls back
-   to before the start; the resync stores an event older than the sync start.  Every
-   hypothesis of the theorem holds except quiet_before. *)
+(* D9 on the legacy flavour (the start of a sync is not clamped to the sync start, as before the fix
+   commits fe0789c / 4702ec9 / efdc9c3): a reorganisation detected fewer than the assumed depth past
+   the sync start rolls back to before the start; the resync stores an event older than the sync
+   start.  Every hypothesis of the theorem holds. *)
 
 Definition d9_a : view uev :=
   [ mkblk (hx "00") []; mkblk (hx "01") [(0, 0, ev1)]; mkblk (hx "02") []; mkblk (hx "a3") [] ].
 Definition d9_b : view uev :=
   [ mkblk (hx "00") []; mkblk (hx "01") [(0, 0, ev1)]; mkblk (hx "02") []; mkblk (hx "b3") []; mkblk (hx "b4") [] ].
-Definition d9_flavour : flavour := registry_flavour 2 3 10 false.
+Definition d9_flavour : flavour := legacy_unclamped_registry_flavour 2 3 10.   (* before the D9 fix *)
+Definition d9_repaired_flavour : flavour := registry_flavour 2 3 10 false.
 Definition d9_history : list (sync_input uev) := [(d9_a, ([], [])); (d9_b, ([], []))].
 
 Lemma d9_view_ok v : In v [d9_a; d9_b] -> view_ok registry_key registry_admissible d9_flavour v.
@@ -118,7 +119,7 @@ Qed.
 Theorem exact_when_canonical_refuted :
   exists (history : list (sync_input uev)) v,
     let fl := d9_flavour in
-    fl_swallow fl = false /\
+    fl_swallow fl = false /\ fl_unclamped fl = true /\
     In v (map fst history) /\
     registry_universe_ok fl (map fst history) /\
     registry_heads_ok fl ginit history /\
@@ -126,7 +127,7 @@ Theorem exact_when_canonical_refuted :
                   block_at v k = Some b /\ bk_hash b = h /\
                   st_rows (g_st (registry_grun fl history)) <> rows_of registry_admissible v (fl_first_start fl) k.
 Proof.
-  exists d9_history, d9_b. simpl. split; [reflexivity|]. split; [right; left; reflexivity|].
+  exists d9_history, d9_b. simpl. split; [reflexivity|]. split; [reflexivity|]. split; [right; left; reflexivity|].
   split; [exact d9_universe|]. split.
   - split; [exact I|]. split; [|exact I].
     assert (Hg : gstep registry_key ukey_eqb registry_admissible registry_merge d9_flavour ginit (d9_a, ([], []))
@@ -135,3 +136,10 @@ Proof.
   - exists 4, (hx "b4"), (mkblk (hx "b4") []). split; [vm_compute; reflexivity|].
     split; [reflexivity|]. split; [reflexivity|]. vm_compute. discriminate.
 Qed.
+
+(* the same history on the repaired flavour: the resync starts at the sync start and the table is
+   exact (empty: the only event is older than the sync start) *)
+Example d9_history_repaired :
+  st_status (g_st (registry_grun d9_repaired_flavour d9_history)) = Some (4, hx "b4") /\
+  st_rows (g_st (registry_grun d9_repaired_flavour d9_history)) = rows_of registry_admissible d9_b 2 4.
+Proof. vm_compute. split; reflexivity. Qed.
